@@ -521,9 +521,19 @@ instance (g : Graph) : Decidable (WFStop g) := by unfold WFStop; exact inferInst
 the live stop point is the one a restart would compute -/
 def StopOK (g : Graph) (s : State) : Prop := s.stop ≠ some "AUTOMATIC" → s.stopPoint = restartStop g s
 
-def Inv (g : Graph) (s : State) : Prop := NoDup s ∧ StopOK g s
+/-- duplicate-free pool ∧ a relation `Q` between the live and the DB stop point that holds unless the scheduler shut
+down on its own (generic in `Q` so that the same pass over the primitives also yields the plain `NoDup`) -/
+def InvQ (Q : Option Int → Option Int → Prop) (s : State) : Prop :=
+  NoDup s ∧ (s.stop ≠ some "AUTOMATIC" → Q s.stopPoint s.dbStopCp)
 
-theorem inv_of_keep {g : Graph} {s t : State} (hi : Inv g s) (hk : Keep (sp s) t) : Inv g t := by
+def stopQ (g : Graph) (a b : Option Int) : Prop :=
+  a = some ((match b with | some p => some p | none => g.cfgStop).getD g.fcp)
+
+def Inv (g : Graph) (s : State) : Prop := InvQ (stopQ g) s
+
+theorem inv_iff (g : Graph) (s : State) : Inv g s ↔ NoDup s ∧ StopOK g s := Iff.rfl
+
+theorem inv_of_keep {Q} {s t : State} (hi : InvQ Q s) (hk : Keep (sp s) t) : InvQ Q t := by
   refine ⟨hk.1, ?_⟩
   have h2 := hk.2
   unfold sp at h2
@@ -531,7 +541,6 @@ theorem inv_of_keep {g : Graph} {s t : State} (hi : Inv g s) (hk : Keep (sp s) t
   obtain ⟨h21, h22, h23⟩ := h2
   intro hne
   have := hi.2 (by rw [← h21]; exact hne)
-  unfold restartStop at *
   rw [h22, h23]; exact this
 
 theorem keep_self {s : State} (h : NoDup s) : Keep (sp s) s := ⟨h, rfl⟩
@@ -571,7 +580,7 @@ theorem checkAutoShutdown_spec (g : Graph) (s : State) :
       · exact ⟨c1, c2, c3, c4, fun _ => c5⟩
       · exact ⟨c1, c2, c3, c4, fun h => by simp at h⟩
 
-theorem inv_mainLoop (g : Graph) (s : State) (h : Inv g s) : Inv g (mainLoop g s) := by
+theorem inv_mainLoop {Q} (g : Graph) (s : State) (h : InvQ Q s) : InvQ Q (mainLoop g s) := by
   unfold mainLoop
   split
   · exact h
@@ -584,12 +593,12 @@ theorem inv_mainLoop (g : Graph) (s : State) (h : Inv g s) : Inv g (mainLoop g s
     have k2 : Keep (sp s) (releaseRunahead g (computeRunahead g s)).1 :=
       keep_releaseRunahead g _ (keep_computeRunahead g s false (keep_self h.1))
     generalize (releaseRunahead g (computeRunahead g s)).1 = s2 at k2 ⊢
-    have i2 : Inv g s2 := inv_of_keep h k2
+    have i2 : InvQ Q s2 := inv_of_keep h k2
     have hs2 : s2.stop = none := by
       have := k2.2; unfold sp at this; simp only [Prod.mk.injEq] at this; rw [this.1]; exact hs0
     -- the rest of the loop after the shutdown decision
-    have rest : ∀ s3 : State, Inv g s3 → s3.stop = none →
-        Inv g (finishLoop g (processQueue g
+    have rest : ∀ s3 : State, InvQ Q s3 → s3.stop = none →
+        InvQ Q (finishLoop g (processQueue g
           (if ((sweepQueue s3).stopMode.isNone && !(sweepQueue s3).paused) = true then releaseAndSubmit (sweepQueue s3)
             else sweepQueue s3))) := by
       intro s3 i3 _
@@ -620,7 +629,7 @@ theorem inv_mainLoop (g : Graph) (s : State) (h : Inv g s) : Inv g (mainLoop g s
           rw [c1]; exact this
         | false =>
           simp only [Bool.false_eq_true, if_false]
-          have i3 : Inv g (checkAutoShutdown g s2).1 := by
+          have i3 : InvQ Q (checkAutoShutdown g s2).1 := by
             apply inv_of_keep i2
             refine ⟨?_, ?_⟩
             · have := i2.1
@@ -641,32 +650,40 @@ theorem inv_mainLoop (g : Graph) (s : State) (h : Inv g s) : Inv g (mainLoop g s
         exact i2.2 (by rw [hs2]; simp)
       · exact rest s2 i2 hs2
 
-theorem inv_setStopPoint (g : Graph) (s : State) (p : Int) (h : Inv g s) : Inv g (setStopPoint s p) := by
+/-- `set_stop_point`: the keys of the pool are kept; the live and the DB stop point are either both untouched or
+both set to the new point -/
+theorem setStopPoint_spec (s : State) (p : Int) :
+    keys (setStopPoint s p) = keys s ∧ (setStopPoint s p).stop = s.stop ∧
+    (((setStopPoint s p).stopPoint = s.stopPoint ∧ (setStopPoint s p).dbStopCp = s.dbStopCp) ∨
+     ((setStopPoint s p).stopPoint = some p ∧ (setStopPoint s p).dbStopCp = some p)) := by
   unfold setStopPoint
   split
-  · exact h
+  · exact ⟨rfl, rfl, Or.inl ⟨rfl, rfl⟩⟩
   · simp only
-    have hsp : ∀ t : State, t.stopPoint = some p → t.dbStopCp = some p → StopOK g t := by
-      intro t h1 h2 _
-      unfold restartStop
-      rw [h1, h2]; rfl
     split
     · split
-      · refine ⟨?_, hsp _ rfl rfl⟩
-        have := h.1
-        unfold NoDup keys at *
+      · refine ⟨?_, rfl, Or.inr ⟨rfl, rfl⟩⟩
+        unfold keys
         simp only [List.map_map]
-        have heq : ((fun (x : Proxy) => (x.pt, x.name)) ∘ fun (x : Proxy) =>
-            if (decide (x.pt > p) && x.status == Status.waiting) = true then x.reset (runahead := some true) else x) =
-            fun (x : Proxy) => (x.pt, x.name) := by
-          funext x
-          simp only [Function.comp]
-          split
-          · unfold Proxy.reset; simp only; split <;> rfl
-          · rfl
-        rw [heq]; exact this
-      · exact ⟨h.1, hsp _ rfl rfl⟩
-    · exact ⟨h.1, hsp _ rfl rfl⟩
+        apply List.map_congr_left
+        intro x _
+        simp only [Function.comp]
+        split
+        · unfold Proxy.reset; simp only; split <;> rfl
+        · rfl
+      · exact ⟨rfl, rfl, Or.inr ⟨rfl, rfl⟩⟩
+    · exact ⟨rfl, rfl, Or.inr ⟨rfl, rfl⟩⟩
+
+theorem nodup_setStopPoint (s : State) (p : Int) (h : NoDup s) : NoDup (setStopPoint s p) := by
+  unfold NoDup; rw [(setStopPoint_spec s p).1]; exact h
+
+theorem inv_setStopPoint (g : Graph) (s : State) (p : Int) (h : Inv g s) : Inv g (setStopPoint s p) := by
+  obtain ⟨_, h2, h3⟩ := setStopPoint_spec s p
+  refine ⟨nodup_setStopPoint s p h.1, ?_⟩
+  intro hne
+  rcases h3 with ⟨h31, h32⟩ | ⟨h31, h32⟩
+  · rw [h31, h32]; exact h.2 (by rw [← h2]; exact hne)
+  · rw [h31, h32]; rfl
 
 /-! ### `restart`, field by field -/
 
@@ -845,5 +862,378 @@ theorem setHoldPoint_spec (s : State) (p : Int) (h : NoDup s) :
   have := setHoldPoint_fold p s.pool [] { s with holdPoint := some p } (by simp) (by intro a ha; simp at ha) h
   refine this.trans ?_
   simp
+
+theorem restoreProxy_key (x : Proxy) : ((restoreProxy x).pt, (restoreProxy x).name) = (x.pt, x.name) := by
+  unfold restoreProxy; simp only
+
+theorem keys_restartBase (g : Graph) (s : State) : keys (restartBase g s) = keys s := by
+  unfold keys restartBase
+  simp only [List.map_map]
+  apply List.map_congr_left
+  intro x _
+  exact restoreProxy_key x
+
+theorem nodup_restartBase (g : Graph) (s : State) (h : NoDup s) : NoDup (restartBase g s) := by
+  unfold NoDup; rw [keys_restartBase]; exact h
+
+/-- **`restart` in closed form** (duplicate-free pool): the database image of every proxy, then the hold point
+re-applied to the proxies beyond it -/
+theorem restart_spec (g : Graph) (s : State) (h : NoDup s) :
+    restart g s = match s.holdPoint with
+      | none => restartBase g s
+      | some hp => { restartBase g s with
+          holdPoint := some hp,
+          pool := (s.pool.map restoreProxy).map (holdBeyond hp),
+          tasksToHold := (s.pool.map restoreProxy).foldl (addHold hp) s.tasksToHold } := by
+  rw [restart_eq]
+  cases hh : s.holdPoint with
+  | none => rfl
+  | some hp =>
+    simp only
+    rw [setHoldPoint_spec _ _ (nodup_restartBase g s h)]
+    rfl
+
+theorem inv_restartBase (g : Graph) (s : State) (h : NoDup s) : Inv g (restartBase g s) := by
+  refine ⟨nodup_restartBase g s h, ?_⟩
+  intro _
+  rfl
+
+theorem inv_restart (g : Graph) (s : State) (h : NoDup s) : Inv g (restart g s) := by
+  rw [restart_eq]
+  split
+  · exact inv_of_keep (inv_restartBase g s h) (keep_setHoldPoint _ _ (keep_self (nodup_restartBase g s h)))
+  · exact inv_restartBase g s h
+
+theorem inv_init (g : Graph) (hw : WFStop g) : Inv g (init g) := by
+  have hk := keep_loadFromPoint g
+  refine ⟨hk.1, ?_⟩
+  intro _
+  have h2 := hk.2
+  unfold sp at h2
+  simp only [Prod.mk.injEq] at h2
+  show stopQ g (loadFromPoint g).stopPoint (loadFromPoint g).dbStopCp
+  rw [h2.2.1, h2.2.2]
+  exact hw
+
+theorem inv_step (g : Graph) (s : State) (op : Op) (h : Inv g s) : Inv g (step g s op) := by
+  unfold step
+  have hc : Inv g (clearOp s) := inv_of_keep h (keep_of_eq rfl rfl (keep_self h.1))
+  generalize clearOp s = s0 at hc ⊢
+  cases op with
+  | loop => exact inv_mainLoop g _ hc
+  | subres p n ok sn => exact inv_of_keep hc (keep_processMessage g 4 _ _ _ _ _ _ (keep_self hc.1))
+  | msg p n sn text => exact inv_of_keep hc (keep_of_eq rfl rfl (keep_self hc.1))
+  | hold ids => exact inv_of_keep hc (keep_holdTasks _ _ (keep_self hc.1))
+  | release ids => exact inv_of_keep hc (keep_releaseTasks _ _ (keep_self hc.1))
+  | setHoldPoint p => exact inv_of_keep hc (keep_setHoldPoint _ _ (keep_self hc.1))
+  | releaseHoldPoint => exact inv_of_keep hc (keep_releaseHoldPoint _ (keep_self hc.1))
+  | stop mode => exact inv_of_keep hc (keep_of_eq rfl rfl (keep_self hc.1))
+  | stopPoint p => exact inv_setStopPoint g _ p hc
+  | stopTask p n => exact inv_of_keep hc (keep_of_eq rfl rfl (keep_self hc.1))
+  | pause => exact inv_of_keep hc (keep_of_eq rfl rfl (keep_self hc.1))
+  | resume => exact inv_of_keep hc (keep_of_eq rfl rfl (keep_self hc.1))
+  | restart => exact inv_restart g _ hc.1
+
+/-- in every state of every run (any instance graph whose start-up stop point is the configured one, any op list):
+no two proxies share (point, name), and the live stop point is the one a restart would restore -/
+theorem inv_run (g : Graph) (hw : WFStop g) (ops : List Op) : ∀ s ∈ run g ops, Inv g s :=
+  run_inv (Inv g) g (inv_init g hw) (inv_step g) ops
+
+/-- without the hypothesis on the graph: no two proxies share (point, name) -/
+theorem nodup_step (g : Graph) (s : State) (op : Op) (h : NoDup s) : NoDup (step g s op) := by
+  have hi : InvQ (fun _ _ => True) s := ⟨h, fun _ => trivial⟩
+  suffices InvQ (fun _ _ => True) (step g s op) from this.1
+  unfold step
+  have hc : InvQ (fun _ _ => True) (clearOp s) := inv_of_keep hi (keep_of_eq rfl rfl (keep_self h))
+  generalize clearOp s = s0 at hc ⊢
+  cases op with
+  | loop => exact inv_mainLoop g _ hc
+  | subres p n ok sn => exact inv_of_keep hc (keep_processMessage g 4 _ _ _ _ _ _ (keep_self hc.1))
+  | msg p n sn text => exact inv_of_keep hc (keep_of_eq rfl rfl (keep_self hc.1))
+  | hold ids => exact inv_of_keep hc (keep_holdTasks _ _ (keep_self hc.1))
+  | release ids => exact inv_of_keep hc (keep_releaseTasks _ _ (keep_self hc.1))
+  | setHoldPoint p => exact inv_of_keep hc (keep_setHoldPoint _ _ (keep_self hc.1))
+  | releaseHoldPoint => exact inv_of_keep hc (keep_releaseHoldPoint _ (keep_self hc.1))
+  | stop mode => exact inv_of_keep hc (keep_of_eq rfl rfl (keep_self hc.1))
+  | stopPoint p => exact ⟨nodup_setStopPoint _ p hc.1, fun _ => trivial⟩
+  | stopTask p n => exact inv_of_keep hc (keep_of_eq rfl rfl (keep_self hc.1))
+  | pause => exact inv_of_keep hc (keep_of_eq rfl rfl (keep_self hc.1))
+  | resume => exact inv_of_keep hc (keep_of_eq rfl rfl (keep_self hc.1))
+  | restart => exact ⟨(inv_restart g _ hc.1).1, fun _ => trivial⟩
+
+theorem nodup_init (g : Graph) : NoDup (init g) := (keep_loadFromPoint g).1
+
+/-- C26 for `Sched2`: in every state of every run no two proxies share (point, name) -/
+theorem nodup_run (g : Graph) (ops : List Op) : ∀ s ∈ run g ops, NoDup s :=
+  run_inv NoDup g (nodup_init g) (nodup_step g) ops
+
+/-! ### What a restart does to one proxy, field by field -/
+
+/-- the restored proxy: the database image, then the hold point (if any) re-applied -/
+def normProxy (hp : Option Int) (x : Proxy) : Proxy :=
+  match hp with
+  | none => restoreProxy x
+  | some p => holdBeyond p (restoreProxy x)
+
+theorem restart_pool (g : Graph) (s : State) (h : NoDup s) :
+    (restart g s).pool = s.pool.map (normProxy s.holdPoint) := by
+  rw [restart_spec g s h]
+  cases hh : s.holdPoint with
+  | none => rfl
+  | some hp =>
+    simp only [List.map_map]
+    rfl
+
+/-- `hold_active_task` changes nothing but `held` (and the updated flag) -/
+theorem holdBeyond_other (p : Int) (x : Proxy) :
+    (holdBeyond p x).pt = x.pt ∧ (holdBeyond p x).name = x.name ∧ (holdBeyond p x).status = x.status ∧
+    (holdBeyond p x).submitNum = x.submitNum ∧ (holdBeyond p x).flows = x.flows ∧ (holdBeyond p x).done = x.done ∧
+    (holdBeyond p x).pre = x.pre ∧ (holdBeyond p x).sui = x.sui ∧ (holdBeyond p x).queued = x.queued ∧
+    (holdBeyond p x).runahead = x.runahead ∧ (holdBeyond p x).execTry = x.execTry ∧
+    (holdBeyond p x).subTry = x.subTry ∧ (holdBeyond p x).timers = x.timers := by
+  unfold holdBeyond
+  split
+  · unfold Proxy.reset
+    simp only
+    split <;> exact ⟨rfl, rfl, rfl, rfl, rfl, rfl, rfl, rfl, rfl, rfl, rfl, rfl, rfl⟩
+  · exact ⟨rfl, rfl, rfl, rfl, rfl, rfl, rfl, rfl, rfl, rfl, rfl, rfl, rfl⟩
+
+theorem holdBeyond_held (p : Int) (x : Proxy) : (holdBeyond p x).held = (x.held || decide (x.pt > p)) := by
+  unfold holdBeyond
+  split
+  · rename_i hgt
+    unfold Proxy.reset
+    simp only [Option.getD_some, Option.getD_none, beq_self_eq_true, Bool.true_and, Bool.and_true]
+    split
+    · rename_i hc
+      have : x.held = true := by
+        cases hx : x.held with
+        | true => rfl
+        | false => simp [hx] at hc
+      simp [this]
+    · simp [hgt]
+  · rename_i hgt
+    simp [hgt]
+
+/-- the database image of a proxy keeps identity, flows, held flag, prerequisites and retry state -/
+theorem restoreProxy_other (x : Proxy) :
+    (restoreProxy x).pt = x.pt ∧ (restoreProxy x).name = x.name ∧ (restoreProxy x).flows = x.flows ∧
+    (restoreProxy x).held = x.held ∧ (restoreProxy x).pre = x.pre ∧ (restoreProxy x).sui = x.sui ∧
+    (restoreProxy x).execTry = x.execTry ∧ (restoreProxy x).subTry = x.subTry ∧ (restoreProxy x).timers = x.timers ∧
+    (restoreProxy x).queued = false := by
+  unfold restoreProxy
+  simp only
+  exact ⟨trivial, trivial, trivial, trivial, trivial, trivial, trivial, trivial, trivial, trivial⟩
+
+theorem restoreProxy_status (x : Proxy) :
+    (restoreProxy x).status = (if x.status = .preparing then .waiting else x.status) := by
+  unfold restoreProxy
+  by_cases h : x.status = .preparing
+  · simp [h]
+  · have : (x.status == Status.preparing) = false := by simpa using h
+    simp [h, this]
+
+theorem restoreProxy_submitNum (x : Proxy) :
+    (restoreProxy x).submitNum = (if x.status = .preparing then x.submitNum - 1 else x.submitNum) := by
+  unfold restoreProxy
+  by_cases h : x.status = .preparing
+  · simp [h]
+  · have : (x.status == Status.preparing) = false := by simpa using h
+    simp [h, this]
+
+/-- completed outputs come back for running / failed / succeeded tasks only -/
+theorem restoreProxy_done (x : Proxy) :
+    (restoreProxy x).done =
+      (if x.status = .running ∨ x.status = .failed ∨ x.status = .succeeded then x.done else []) := by
+  unfold restoreProxy
+  cases hs : x.status <;> simp [hs]
+
+theorem restoreProxy_runahead (x : Proxy) :
+    (restoreProxy x).runahead = !(x.status == .failed || x.status == .succeeded || x.status == .expired) := by
+  unfold restoreProxy
+  cases hs : x.status <;> simp [hs] <;> decide
+
+/-! ### The spawn decision reads only data that a restart preserves -/
+
+/-- `spawn_task` as a function of what it reads of the state: the DB history, `tasks_to_hold`, the hold point
+and the record of completed absolute outputs -/
+def spawnDecision (g : Graph) (hist : List Hist) (tth : List (String × Int)) (hp : Option Int) (abs : List Atom)
+    (name : String) (p : Int) : Option Proxy :=
+  (spawnTask g { hist := hist, tasksToHold := tth, holdPoint := hp, absDone := abs } name p).2
+
+theorem spawnTask_decision (g : Graph) (s : State) (n : String) (p : Int) :
+    (spawnTask g s n p).2 = spawnDecision g s.hist s.tasksToHold s.holdPoint s.absDone n p := by
+  unfold spawnDecision spawnTask
+  simp only
+  repeat' split
+  all_goals first
+    | rfl
+    | (rename_i h1 h2; simp only [Prod.mk.injEq] at h1 h2; obtain ⟨_, h1⟩ := h1; obtain ⟨_, h2⟩ := h2
+       subst h1; subst h2; rfl)
+    | (rename_i h1 h2; simp_all)
+
+/-! ### Closed-loop execution: the scheduler model against a deterministic job environment
+
+Used to *state* `continuation_equiv` (Props/C19); nothing below is proved about it. -/
+
+/-- what job (point, name, submit number) reports, in order; the first entry is the submit result
+(`"submitted"` / `"submit-failed"`) -/
+abbrev Plan := Int → String → Nat → List String
+
+structure Job where
+  pt : Int
+  name : String
+  sn : Nat
+  rest : List String
+
+structure Sys where
+  s : State
+  jobs : List Job := []                      -- in-flight jobs with the reports still to come
+  launched : List (Int × String) := []       -- every instance launched so far
+
+def deliver (g : Graph) (s : State) (j : Job) (m : String) : State :=
+  if m == "submitted" then step g s (.subres j.pt j.name true j.sn)
+  else if m == "submit-failed" then step g s (.subres j.pt j.name false j.sn)
+  else step g s (.msg j.pt j.name j.sn m)
+
+/-- one round: a main loop; unless it shut the scheduler down, the jobs it launched are registered (a launch
+under a submit number already known replaces that job) and every in-flight job makes its next report -/
+def round (g : Graph) (plan : Plan) (y : Sys) : Sys :=
+  let s1 := step g y.s .loop
+  if s1.stop.isSome then { y with s := s1 } else
+  let newJobs : List Job := s1.launched.map fun l => ⟨l.1, l.2.1, l.2.2, plan l.1 l.2.1 l.2.2⟩
+  let jobs := (y.jobs.filter fun j =>
+    !newJobs.any fun k => k.pt == j.pt && k.name == j.name && k.sn == j.sn) ++ newJobs
+  let r := jobs.foldl (fun (acc : State × List Job) j =>
+      match j.rest with
+      | [] => acc
+      | m :: rest => (deliver g acc.1 j m, acc.2 ++ [{ j with rest := rest }])) (s1, [])
+  { s := r.1, jobs := r.2, launched := y.launched ++ s1.launched.map fun l => (l.1, l.2.1) }
+
+def rounds (g : Graph) (plan : Plan) : Nat → Sys → Sys
+  | 0, y => y
+  | n + 1, y => rounds g plan n (round g plan y)
+
+/-- rounds until the scheduler has shut down (at most `n`) -/
+def roundsUntilStopped (g : Graph) (plan : Plan) : Nat → Sys → Sys
+  | 0, y => y
+  | n + 1, y => if y.s.stop.isSome then y else roundsUntilStopped g plan n (round g plan y)
+
+/-- restart of the stopped system: the submission of a task still in preparation died with the scheduler (its
+job is dropped, the task is prepared again); job messages received but not processed are sent again (polling) -/
+def restartSys (g : Graph) (y : Sys) : Sys :=
+  let s' := step g y.s .restart
+  let s' := y.s.queue.foldl (fun st m => step g st (.msg m.pt m.name m.submitNum m.text)) s'
+  { y with s := s',
+           jobs := y.jobs.filter fun j => !(y.s.pool.any fun x =>
+             x.pt == j.pt && x.name == j.name && x.submitNum == j.sn && x.status == .preparing) }
+
+def sameSet {α} [BEq α] (a b : List α) : Bool := a.all (b.contains ·) && b.all (a.contains ·)
+
+/-- final outputs of every instance the run knows of: removed ones (DB history) and pooled ones -/
+def finals (s : State) : List (Int × String × List String) :=
+  (s.hist.map fun h => (h.pt, h.name, h.done)) ++ (s.pool.map fun x => (x.pt, x.name, x.done))
+
+def sameFinals (a b : List (Int × String × List String)) : Bool :=
+  let le (a b : List (Int × String × List String)) : Bool :=
+    a.all fun x => b.any fun y => x.1 == y.1 && x.2.1 == y.2.1 && sameSet x.2.2 y.2.2
+  le a b && le b a
+
+/-- the uninterrupted run: `n` rounds from start-up -/
+def runU (g : Graph) (plan : Plan) (n : Nat) : Sys := rounds g plan n { s := init g }
+
+/-- the interrupted run: `k` rounds, a stop request, rounds until the scheduler is down, restart, then
+`2 * n + 4` rounds (room for the re-preparation of what was in flight) -/
+def runI (g : Graph) (plan : Plan) (k : Nat) (mode : String) (n : Nat) : Sys :=
+  let y := rounds g plan k { s := init g }
+  let y := { y with s := step g y.s (.stop mode) }
+  let y := roundsUntilStopped g plan n y
+  rounds g plan (2 * n + 4) (restartSys g y)
+
+/-- same set of launched task instances, same final outputs of every instance -/
+def sameOutcome (u i : Sys) : Bool :=
+  sameSet u.launched i.launched && sameFinals (finals u.s) (finals i.s)
+
+
+/-! ### Projections of the restarted pool, the untouched workflow-level fields, reachability of `after` -/
+
+/-- every field of the restored proxy that `hold_active_task` does not touch is the field of the database image -/
+theorem normProxy_proj {α} (f : Proxy → α) (hf : ∀ p x, f (holdBeyond p x) = f x) (hp : Option Int) (x : Proxy) :
+    f (normProxy hp x) = f (restoreProxy x) := by
+  unfold normProxy
+  split
+  · rfl
+  · exact hf _ _
+
+theorem restart_map {α} (f : Proxy → α) (hf : ∀ p x, f (holdBeyond p x) = f x) (g : Graph) (ops : List Op) :
+    ∀ s ∈ run g ops, (restart g s).pool.map f = s.pool.map fun x => f (restoreProxy x) := by
+  intro s hs
+  rw [restart_pool g s (nodup_run g ops s hs), List.map_map]
+  apply List.map_congr_left
+  intro x _
+  exact normProxy_proj f hf _ x
+
+/-- the fields of the restarted state that neither the database image nor the re-applied hold point change -/
+theorem restart_globals (g : Graph) (s : State) :
+    (restart g s).holdPoint = s.holdPoint ∧ (restart g s).stopTask = s.stopTask ∧
+    (restart g s).absDone = s.absDone ∧ (restart g s).hist = s.hist ∧ (restart g s).dbStopCp = s.dbStopCp ∧
+    (restart g s).stop = none ∧ (restart g s).stopMode = none ∧ (restart g s).queue = [] := by
+  rw [restart_eq]
+  cases hh : s.holdPoint with
+  | none => exact ⟨hh, rfl, rfl, rfl, rfl, rfl, rfl, rfl⟩
+  | some hp =>
+    simp only
+    -- `set_hold_point` = a fold of `hold_active_task`; none of these fields is touched
+    have key : ∀ (l : List Proxy) (st : State),
+        let r := l.foldl (fun st x => if x.pt > hp then
+            match st.get? x.pt x.name with | some y => holdActive st y | none => st
+          else st) st
+        r.holdPoint = st.holdPoint ∧ r.stopTask = st.stopTask ∧ r.absDone = st.absDone ∧ r.hist = st.hist ∧
+        r.dbStopCp = st.dbStopCp ∧ r.stop = st.stop ∧ r.stopMode = st.stopMode ∧ r.queue = st.queue := by
+      intro l
+      induction l with
+      | nil => intro st; exact ⟨rfl, rfl, rfl, rfl, rfl, rfl, rfl, rfl⟩
+      | cons x l ih =>
+        intro st
+        simp only [List.foldl_cons]
+        have hstep : ∀ t : State, (t.holdPoint = st.holdPoint ∧ t.stopTask = st.stopTask ∧ t.absDone = st.absDone ∧
+            t.hist = st.hist ∧ t.dbStopCp = st.dbStopCp ∧ t.stop = st.stop ∧ t.stopMode = st.stopMode ∧
+            t.queue = st.queue) →
+            (let r := l.foldl (fun st x => if x.pt > hp then
+                match st.get? x.pt x.name with | some y => holdActive st y | none => st
+              else st) t
+            r.holdPoint = st.holdPoint ∧ r.stopTask = st.stopTask ∧ r.absDone = st.absDone ∧ r.hist = st.hist ∧
+            r.dbStopCp = st.dbStopCp ∧ r.stop = st.stop ∧ r.stopMode = st.stopMode ∧ r.queue = st.queue) := by
+          intro t ht
+          obtain ⟨a1, a2, a3, a4, a5, a6, a7, a8⟩ := ih t
+          obtain ⟨b1, b2, b3, b4, b5, b6, b7, b8⟩ := ht
+          exact ⟨a1.trans b1, a2.trans b2, a3.trans b3, a4.trans b4, a5.trans b5, a6.trans b6, a7.trans b7, a8.trans b8⟩
+        apply hstep
+        split
+        · split
+          · rw [holdActive_spec]; exact ⟨rfl, rfl, rfl, rfl, rfl, rfl, rfl, rfl⟩
+          · exact ⟨rfl, rfl, rfl, rfl, rfl, rfl, rfl, rfl⟩
+        · exact ⟨rfl, rfl, rfl, rfl, rfl, rfl, rfl, rfl⟩
+    unfold setHoldPoint
+    obtain ⟨a1, a2, a3, a4, a5, a6, a7, a8⟩ := key (restartBase g s).pool { restartBase g s with holdPoint := some hp }
+    exact ⟨a1, a2, a3, a4, a5, a6, a7, a8⟩
+
+/-- the state reached by an op list -/
+def after (g : Graph) (ops : List Op) : State := ops.foldl (step g) (init g)
+
+theorem after_mem_run (g : Graph) (ops : List Op) : after g ops ∈ run g ops := by
+  unfold run after
+  have key : ∀ (ops : List Op) (acc : List State) (cur : State), cur ∈ acc →
+      ops.foldl (step g) cur ∈ (ops.foldl (fun (a : List State × State) op =>
+          let s' := step g a.2 op; (a.1 ++ [s'], s')) (acc, cur)).1 := by
+    intro ops
+    induction ops with
+    | nil => intro acc cur h; exact h
+    | cons op ops ih =>
+      intro acc cur _
+      simp only [List.foldl_cons]
+      apply ih
+      simp
+  exact key ops [init g] (init g) (by simp)
 
 end CylcModel.Sched2
